@@ -278,6 +278,10 @@ def edge_instance(rng, features=True, allow_isolated=True):
             bump = [1, 2, 7] if wint else [0.5, 1.0, 3.25]
             inst["flow"] = [[u, v, (qstr(frac(q) + frac(rng.choice(bump))) if (u, v) in ig and rng.random() < 0.7 else q)]
                             for u, v, q in inst["flow"]]
+    if rng.random() < 0.3:
+        # the graph "was read from a file and then edited": stale n / m / w / constraints metadata
+        inst["stale_file_attrs"] = {"n": len(inst["nodes"]) + rng.randint(0, 3), "m": len(inst["edges"]) + rng.randint(0, 4),
+                                    "w": rng.randint(1, 6), "constraints": []}
     return inst
 
 
